@@ -219,9 +219,14 @@ def build_mock_cascade(ops):
                                                                   if m.write_offset is not None else m.ofm_shape))])
         ps = NS(npu_block_type=bt, ofm_tensor=ofm_t, ops=[], primary_op=parent_op, ofm_shapes=[full],
                              ifm_shapes=[ifm_shape], name=f"ps{i}")
+        sy_ = m.stride[0] if isinstance(m.stride, (tuple, list)) else m.stride
+        sx_ = m.stride[1] if isinstance(m.stride, (tuple, list)) else m.stride
+        # a real Kernel object (the generator may read any of its fields, not only the stride); a stub whose attributes fall
+        # short of the real class turned a seeded change (C10 seed3-m1: k_dilated_height from kernel.dilation) into a harness crash
+        from ethosu.vela.operation import Kernel
+        kern = Kernel(m.kernel_h, m.kernel_h, stride_x=sx_, stride_y=sy_, dilation_x=dw_, dilation_y=dh_)
         so = NS(parent_ps=ps, parent_op=parent_op, ifm2=None, ofm=NS(shape=ofm_shape),
-                             kernel=NS(stride=NS(y=(m.stride[0] if isinstance(m.stride, (tuple, list)) else m.stride),
-                                                 x=(m.stride[1] if isinstance(m.stride, (tuple, list)) else m.stride))), op_type=optype,
+                             kernel=kern, op_type=optype,
                              resampling_mode=rmode, reversed_operands=False, index=i)
         so.ifm = NS(shape=ifm_shape, connection=NS(producers=[prev] if prev is not None else []))
         so.ifm_read_shape = parent_op.read_shapes[0] if parent_op.read_shapes[0] is not None else ifm_shape
@@ -254,6 +259,10 @@ def run_real_generator(sched_ops, schedule, pss):
         err = " err:value"
     except ZeroDivisionError:
         err = " err:value"
+    except AttributeError as e:
+        # the generator read a field the mock scheduler objects do not carry: the model can no longer be compared on mocks.
+        # Reported as a broken correspondence (the pipeline tier then decides on real compilations), not as a harness crash.
+        err = " err:mock-attribute:" + str(e).replace(" ", "_")[:80]
     return "ok " + ";".join(out) + err
 
 
